@@ -161,9 +161,9 @@ def run(ctx, rep):
     # R12.4
     sites = [s for s in psc.census(ctx) if s['fn'] == fn.path and s['block'] in call['region'] and s['kind'] == 'assert']
     for s in sites:
-        d = c05.discharge(F, s)
-        rep.ob(d is not None, 'R12.4', fn.path, 'Call arm %s#%d' % (s['what'], s['ord']),
-               (d[1] if d else 'unguarded 16-bit/32-bit arithmetic on the stack length / argument count: %s' % str(sym(fn, s['term']['cond']))[:120]), span_loc(s['span']))
+        okv, why = c05.verdict_for(ctx, s)
+        rep.ob(okv, 'R12.4', fn.path, 'Call arm %s#%d' % (s['what'], s['ord']),
+               why if okv else 'unguarded arithmetic on the stack length / argument count: %s (%s)' % (str(sym(fn, s['term']['cond']))[:120], why), span_loc(s['span']))
     ncast = 0
     for b in sorted(call['region']):
         for st in fn.blocks[b]['stmts']:
